@@ -55,14 +55,23 @@ func apiEntryPoints(prog *load.Program) []*ssa.Function {
 }
 
 func checkC20(c *Ctx) {
-	progs := []*load.Program{c.Prog(load.AMD64), c.Prog(load.Purego)}
-	if c.Thorough() {
-		progs = append(progs, c.Prog(load.ARM64))
+	var progs []*load.Program
+	if c.AsDep {
+		// as the bottom layer of another property: the configurations that property's own rules loaded
+		c.Prog(load.AMD64)
+		progs = c.Progs()
+	} else {
+		progs = []*load.Program{c.Prog(load.AMD64), c.Prog(load.Purego)}
+		if c.Thorough() {
+			progs = append(progs, c.Prog(load.ARM64))
+		}
 	}
 	for _, prog := range progs {
 		c20Config(c, prog)
 	}
-	c20Control(c)
+	if !c.AsDep {
+		c20Control(c)
+	}
 	c.R.Explanation = "A data race needs a write to shared memory.  A bottom-up may-write analysis over go/ssa (origins of every pointer-like value: parameter, free variable, package-level variable, fresh allocation; loads keep the origin of the memory they read; call results may alias any argument; callee summaries applied at call sites; library functions by a table, unknown callees write everything they receive) is run on every function of the module in both amd64 build configurations.  (1) No function reachable from the exported API (static calls, method values, function literals) may write memory reachable from any package-level variable of the module - all of them are enumerated; writes inside package initialisers, and inside function literals run under sync.Once, are initialisation.  (2) For every exported function and method of the public packages, the written parameters must be within what the API shape allows: setter-style methods of Element / Scalar / Point (those returning their receiver) may write the receiver only; every other method and every package-level function may write no pointer-like parameter (user-supplied readers excepted).  (3) No reachable function contains a go statement, a channel operation or a sync / atomic call, so all temporaries are goroutine-local.  Determinism under concurrency follows: results depend only on arguments and on package-level data that is never written after initialisation.  A fixture with an unsynchronised lazily built table, a shared scratch buffer, a memoising getter and a goroutine is loaded on every run and must be flagged, its sync.Once twin and its pure getter must not."
 	c.R.Assumptions = []string{"the Go memory model: package initialisation happens before any importer's code; sync.Once publication is race free", "crypto/rand.Reader and the hash constructors of the standard library are safe for concurrent use", "user-supplied io.Readers are the caller's responsibility", "go/ssa; the may-write analysis is field-insensitive (an over-approximation)"}
 }
